@@ -57,6 +57,13 @@ static bool rankDefHolds(Points const& P, std::vector<unsigned> const& rk){
 	}
 	return true;
 }
+// ranks computed from the definition by memoised recursion (independent of all Shark algorithms)
+static unsigned rankOf(Points const& P, std::vector<unsigned>& memo, std::size_t i){
+	if(memo[i]) return memo[i];
+	unsigned best = 0;
+	for(std::size_t j = 0; j != P.size(); ++j) if(strictDom(P[j], P[i])) best = std::max(best, rankOf(P, memo, j));
+	return memo[i] = best + 1;
+}
 // hypervolume by inclusion of unit cells (integer grid): counts cells z with lo<=z<ref dominated by some p
 static long long cellHv(Points const& P, RealVector const& ref){
 	std::size_t m = ref.size();
@@ -115,7 +122,9 @@ int main(){
 			fastNonDominatedSort(P, rf);
 			if(n > 0) dcNonDominatedSort(P, rd);      // the DC sorter reads points[0] unconditionally
 			nonDominatedSort(P, rn);
-			os << "fast=" << showV(rf) << " dc=" << showV(rd) << " nds=" << showV(rn);
+			std::vector<unsigned> memo(n, 0), rs(n, 0);
+			for(std::size_t i = 0; i != n; ++i) rs[i] = rankOf(P, memo, i);
+			os << "fast=" << showV(rf) << " dc=" << showV(rd) << " nds=" << showV(rn) << " spec=" << showV(rs);
 			if(!rankDefHolds(P, rf)) orc += " !oracle rank-def fast";
 			if(!rankDefHolds(P, rd)) orc += " !oracle rank-def dc";
 			if(!rankDefHolds(P, rn)) orc += " !oracle rank-def nds";
